@@ -194,7 +194,7 @@ def run_case(case):
 
 @st.composite
 def small_config(draw):
-    o = draw(cfggen.base_config(nmin=16, nmax=32, min_laststep=6, max_laststep=25, wake=("none", "collimator", "wall", "csr")))
+    o = draw(cfggen.base_config(nmin=16, nmax=32, min_laststep=6, max_laststep=25, wake=("none", "collimator", "wall", "csr"), machine=4, via_rev=6))
     if len(o["BunchCurrent"]) > 2:
         o["BunchCurrent"] = o["BunchCurrent"][:2] if sum(1 for x in o["BunchCurrent"][:2] if x > 0) else [1e-3, 1e-3]
         o["alpha0"] = gen.f32(cfggen.alpha0_for_spacing(1.5, o))
